@@ -442,6 +442,41 @@ func (w *World) callMods(pkg *packages.Package, c *Ctx, call *ast.CallExpr, ms *
 		}
 	}
 	sig := fn.Type().(*types.Signature)
+	if _, inRepo := w.Funcs[key]; !inRepo {
+		if _, hasSpec := w.Specs[key]; !hasSpec {
+			// external callee without contract: it may call back the methods of an argument passed as an interface
+			// (sort.Sort(x), heap.Push(h, v), ...): the effects of those methods are its effects
+			for _, a := range call.Args {
+				at := info.TypeOf(a)
+				if at == nil {
+					continue
+				}
+				if _, isIf := types.Unalias(at).Underlying().(*types.Interface); isIf {
+					continue
+				}
+				for _, fi := range w.Funcs {
+					if fi.Obj == nil {
+						continue
+					}
+					rs := fi.Obj.Type().(*types.Signature).Recv()
+					if rs == nil {
+						continue
+					}
+					rt := types.Unalias(rs.Type())
+					if p, ok := rt.(*types.Pointer); ok {
+						rt = types.Unalias(p.Elem())
+					}
+					at2 := types.Unalias(at)
+					if p, ok := at2.(*types.Pointer); ok {
+						at2 = types.Unalias(p.Elem())
+					}
+					if types.Identical(rt, at2) {
+						note(fi.Key)
+					}
+				}
+			}
+		}
+	}
 	if r := sig.Recv(); r != nil {
 		if _, isIface := types.Unalias(r.Type()).Underlying().(*types.Interface); isIface {
 			if sp, ok := w.Specs[key]; ok {
